@@ -305,6 +305,10 @@ pub trait Prop: Sync {
     /// name of the sub-check (unique within the property)
     fn name(&self) -> &'static str;
     fn check(&self, w: &mut Worker, case: &Self::Case) -> Verdict;
+    /// shrink budget (re-executions of a failing case); sub-checks whose cases build calculators keep it small
+    fn shrink_iters(&self) -> u32 {
+        4000
+    }
 }
 
 // ------------------------------------------------------------------------------------------
@@ -600,7 +604,7 @@ impl Ctx {
                 // large stacks: the composed proptest strategies recurse deeply when a value tree is built
                 std::thread::Builder::new().stack_size(256 << 20).spawn_scoped(sc, move || {
                     let mut w = self.new_worker(t, slot);
-                    let cfg = Config { cases: per as u32, failure_persistence: None, max_shrink_iters: 4000, max_shrink_time: 0, verbose: 0, rng_algorithm: RngAlgorithm::ChaCha, ..Config::default() };
+                    let cfg = Config { cases: per as u32, failure_persistence: None, max_shrink_iters: prop.shrink_iters(), max_shrink_time: 0, verbose: 0, rng_algorithm: RngAlgorithm::ChaCha, ..Config::default() };
                     let seed_bytes = mix(self.seed, &[self.prop, prop.name()], t as u64);
                     let rng = TestRng::from_seed(RngAlgorithm::ChaCha, &seed_bytes);
                     let mut runner = TestRunner::new_with_rng(cfg, rng);
